@@ -94,6 +94,43 @@ pub fn run(ctx: &mut Ctx) {
                 }
             }
         }
+        // the same law on an envelope that is already partly obscured: obscuring one more present
+        // element gives a result that is equivalent but not identical to that envelope
+        for _ in 0..3 {
+            let b = gen::obscure_random(&e, &mut rng, 2, &key);
+            let bt = tree_of(&b);
+            let bflat = bt.flatten();
+            let cands: Vec<&(crate::pos::Path, &T)> = bflat.iter().filter(|(_, n)| !n.kind.is_obscured()).collect();
+            if cands.is_empty() {
+                continue;
+            }
+            let (path, target) = rng.pick(&cands);
+            // every occurrence of that digest must be present (un-obscured), else the element counts as
+            // already obscured somewhere and the action may legitimately leave that occurrence alone
+            if bflat.iter().any(|(_, n)| n.digest == target.digest && n.kind.is_obscured()) {
+                continue;
+            }
+            for act in ACTS {
+                let v = b.elide_removing_set_with_action(&gen::digest_set(&[target.digest]), &action(act, &key));
+                ctx.eval();
+                ctx.count("second_level_variants");
+                if !(b.is_equivalent_to(&v) && v.is_equivalent_to(&b)) {
+                    ctx.violation("variant-not-equivalent", "obscured variant of a partly obscured envelope is not equivalent", J::obj(vec![("orig", jhex(&b)), ("variant", jhex(&v))]));
+                }
+                if b.is_identical_to(&v) || v.is_identical_to(&b) || b == v {
+                    ctx.violation(&format!("variant-identical/second-level/{:?}", act), &format!("obscuring the present element at {} ({:?}) of a partly obscured envelope gives a result reported identical to it", crate::pos::path_str(path), target.kind), J::obj(vec![("orig", jhex(&b)), ("variant", jhex(&v))]));
+                }
+                // whole-envelope forms of the partly obscured envelope
+                if act == gen::Act::Compress && !b.is_obscured() {
+                    if let Ok(c) = b.compress() {
+                        ctx.count("second_level_whole_compress");
+                        if c.is_identical_to(&b) || !c.is_equivalent_to(&b) {
+                            ctx.violation("variant-identical/whole-compress", "compress() of a present (partly obscured) envelope is identical to it or not equivalent", J::obj(vec![("orig", jhex(&b))]));
+                        }
+                    }
+                }
+            }
+        }
         // a second encryption of the same position (other nonce): same pattern
         if flat.len() > 1 {
             let target = flat[rng.range(1, flat.len() - 1)].1;
